@@ -14,6 +14,7 @@ package c13
 
 import (
 	"bytes"
+	"encoding/json"
 	"fmt"
 	"math/rand"
 	"os"
@@ -71,6 +72,8 @@ func Spec() *run.Spec {
 			"the clock of a history is one process-wide atomic counter read immediately before the call and immediately after the return; the wall clock is never read by the oracle",
 			"node processors are harness-defined pure functions of their inputs that pause (runtime.Gosched / microsecond sleeps, seeded) between input reads; their only shared state is an atomic execution counter, so every race report implicates polyform",
 			"only the three entry points the property names are called concurrently (no graph editing while generating)",
+			"poison: an int parameter whose value mod 1000 is in [660,670) makes the harness Itoa node panic; a build that reads it fails (direct: the panic reaches the calling client, which recovers it; HTTP: 500 for that request; GET /zip: the connection dies) and changes nothing — the model renders such a build as PANIC and every other operation must keep linearizing",
+			"settle: after every client has finished, each producer and each parameter is read once more, sequentially; these reads are part of the history handed to porcupine",
 			"a history that does not return (deadlock) is reported by the framework's stall watchdog as a violation of this property",
 			"schedules: only those the Go runtime produced (GOMAXPROCS 2,4,8,16 in the plain build; 2,4,16 under -race)",
 		},
@@ -102,6 +105,10 @@ func Spec() *run.Spec {
 			"http_started_reads":                         2000,
 			"http_zip_files_read":                        200,
 			"http_websocket_clients":                     50,
+			"settle_reads":                               total * 3,
+			"poison_updates":                             total / 20,
+			"failed_builds_observed":                     total / 20,
+			"slow_artifact_reads":                        total / 4,
 		},
 		Phases: []run.Phase{
 			{Name: "linearize", Cases: linCases, Run: history, Batch: 10, CPUBudgetS: 60, StallViolation: true,
@@ -141,15 +148,17 @@ var opName = []string{"update", "read", "artifact"}
 
 // planned operation (input of the case, generated from the seed before anything runs)
 type planOp struct {
-	Kind  int
-	Param int
-	Prod  int
-	Val   string // display value of an update
-	Bad   bool   // update with an undecodable payload
-	Pre   int32  // pause before the call: <0 = -k yields, >0 microseconds
-	Mid   int32  // artifact reads: pause between Artifact() returning and Write (same encoding)
-	BadAt int    // vector parameters: index of the element of a rejected update that has the wrong type
-	Zip   bool   // http phases: GET /zip (every producer's artifact in one request) instead of one producer
+	Kind    int
+	Param   int
+	Prod    int
+	Val     string // display value of an update
+	Bad     bool   // update with an undecodable payload
+	Pre     int32  // pause before the call: <0 = -k yields, >0 microseconds
+	Mid     int32  // artifact reads: pause between Artifact() returning and Write (same encoding)
+	BadAt   int    // vector parameters: index of the element of a rejected update that has the wrong type
+	Zip     bool   // http phases: GET /zip (every producer's artifact in one request) instead of one producer
+	ZipFail bool   // recorded: the /zip request died (no archive): legal only if some build fails in the model
+	Settle  bool   // sequential read issued after every client has finished
 }
 
 // recorded operation
@@ -174,11 +183,12 @@ type recOp struct {
 var clock int64
 
 type pIn struct {
-	Kind  int
-	Param int
-	Prod  int
-	Val   string
-	Bad   bool
+	ZipFail bool
+	Kind    int
+	Param   int
+	Prod    int
+	Val     string
+	Bad     bool
 }
 
 type pOut struct {
@@ -212,10 +222,11 @@ func model(d *graphDesc, init []string) porcupine.Model {
 				return out.Val == string(encodeParam(d.Params[in.Param].Kind, vals[in.Param])), st
 			default:
 				vals := strings.Split(st, sep)
-				if pr := d.Producers[in.Prod]; pr.Stl {
-					return out.Val == vals[pr.Param], st
+				if in.ZipFail {
+					// GET /zip died half way: legal only where some producer's build fails
+					return d.anyPoisoned(vals), st
 				}
-				return out.Val == d.render(vals, d.Producers[in.Prod].Node), st
+				return out.Val == d.artifactOf(vals, in.Prod), st
 			}
 		},
 		Equal: func(a, b interface{}) bool { return a.(string) == b.(string) },
@@ -283,6 +294,9 @@ func runHistory(c *run.Ctx, viaHTTP bool) run.Result {
 					op.Val = fmt.Sprintf("c%dn%d", ci, j)
 				case pInt:
 					op.Val = fmt.Sprint(1000*(ci+1) + j)
+					if r.Intn(7) == 0 {
+						op.Val = fmt.Sprint(1000*(ci+1) + 660 + j) // poison: builds that read it panic
+					}
 				case pFile:
 					op.Val = fmt.Sprintf("f%dn%d", ci, j)
 				case pVec:
@@ -359,6 +373,73 @@ func runHistory(c *run.Ctx, viaHTTP bool) run.Result {
 
 	// ---- run the clients ----------------------------------------------------------------
 	c.Note(fmt.Sprintf("history: %s, %d clients, %d ops, http=%v", d.sig(), nClients, mix[0]+mix[1]+mix[2], viaHTTP))
+	// exec issues one operation (directly on graph.Instance or as an HTTP request) and records it
+	exec := func(rec recOp) []recOp {
+		op := rec.plan
+		var pn *run.PanicInfo
+		if viaHTTP {
+			return httpOp(srv, d, lv, rec)
+		}
+		switch op.Kind {
+		case opUpdate:
+			payload := encodeParam(d.Params[op.Param].Kind, op.Val)
+			if op.Bad {
+				payload = []byte(`{"not": "a ` + pKindName[d.Params[op.Param].Kind] + `"`)
+				if d.Params[op.Param].Kind == pVec {
+					payload = vecJSON(op.Val, op.BadAt)
+				}
+			}
+			rec.Arg = fmt.Sprintf("p%d=%s", op.Param, payload)
+			id := lv.paramIDs[op.Param]
+			rec.Call = atomic.AddInt64(&clock, 1)
+			pn = run.Try(func() {
+				ok, err := lv.g.UpdateParameter(id, payload)
+				rec.ok, rec.err = ok, err != nil
+			})
+			rec.Ret = atomic.AddInt64(&clock, 1)
+			rec.Out = fmt.Sprintf("ok=%v err=%v", rec.ok, rec.err)
+		case opRead:
+			rec.Arg = fmt.Sprintf("p%d", op.Param)
+			id := lv.paramIDs[op.Param]
+			rec.Call = atomic.AddInt64(&clock, 1)
+			pn = run.Try(func() { rec.Out = string(lv.g.ParameterData(id)) })
+			rec.Ret = atomic.AddInt64(&clock, 1)
+		case opArtifact:
+			name := d.Producers[op.Prod].Name
+			rec.Arg = name
+			var buf bytes.Buffer
+			rec.Call = atomic.AddInt64(&clock, 1)
+			pn = run.Try(func() {
+				a := lv.g.Artifact(name)
+				switch {
+				case op.Mid < 0:
+					for i := int32(0); i < -op.Mid; i++ {
+						runtime.Gosched()
+					}
+				case op.Mid > 0:
+					time.Sleep(time.Duration(op.Mid) * time.Microsecond)
+				}
+				if err := a.Write(&buf); err != nil {
+					rec.err = true
+				}
+			})
+			rec.Ret = atomic.AddInt64(&clock, 1)
+			if d.Producers[op.Prod].Stl {
+				rec.Out = decodeSTL(buf.Bytes())
+			} else {
+				rec.Out = buf.String()
+			}
+		}
+		if pn != nil {
+			if op.Kind == opArtifact && strings.Contains(pn.Value, poisonPanic) {
+				// the build failed on a poisoned parameter: the panic reached this client only
+				rec.Out = panicOut
+			} else {
+				rec.panicV, rec.stack, rec.site = pn.Value, pn.Stack, pn.Site
+			}
+		}
+		return []recOp{rec}
+	}
 	recs := make([][]recOp, nClients)
 	start := make(chan struct{})
 	var wg sync.WaitGroup
@@ -376,66 +457,7 @@ func runHistory(c *run.Ctx, viaHTTP bool) run.Result {
 				case op.Pre > 0:
 					time.Sleep(time.Duration(op.Pre) * time.Microsecond)
 				}
-				rec := recOp{Client: ci, Op: opName[op.Kind], plan: op}
-				var pn *run.PanicInfo
-				if viaHTTP {
-					recs[ci] = append(recs[ci], httpOp(srv, d, lv, rec)...)
-					continue
-				}
-				switch op.Kind {
-				case opUpdate:
-					payload := encodeParam(d.Params[op.Param].Kind, op.Val)
-					if op.Bad {
-						payload = []byte(`{"not": "a ` + pKindName[d.Params[op.Param].Kind] + `"`)
-						if d.Params[op.Param].Kind == pVec {
-							payload = vecJSON(op.Val, op.BadAt)
-						}
-					}
-					rec.Arg = fmt.Sprintf("p%d=%s", op.Param, payload)
-					id := lv.paramIDs[op.Param]
-					rec.Call = atomic.AddInt64(&clock, 1)
-					pn = run.Try(func() {
-						ok, err := lv.g.UpdateParameter(id, payload)
-						rec.ok, rec.err = ok, err != nil
-					})
-					rec.Ret = atomic.AddInt64(&clock, 1)
-					rec.Out = fmt.Sprintf("ok=%v err=%v", rec.ok, rec.err)
-				case opRead:
-					rec.Arg = fmt.Sprintf("p%d", op.Param)
-					id := lv.paramIDs[op.Param]
-					rec.Call = atomic.AddInt64(&clock, 1)
-					pn = run.Try(func() { rec.Out = string(lv.g.ParameterData(id)) })
-					rec.Ret = atomic.AddInt64(&clock, 1)
-				case opArtifact:
-					name := d.Producers[op.Prod].Name
-					rec.Arg = name
-					var buf bytes.Buffer
-					rec.Call = atomic.AddInt64(&clock, 1)
-					pn = run.Try(func() {
-						a := lv.g.Artifact(name)
-						switch {
-						case op.Mid < 0:
-							for i := int32(0); i < -op.Mid; i++ {
-								runtime.Gosched()
-							}
-						case op.Mid > 0:
-							time.Sleep(time.Duration(op.Mid) * time.Microsecond)
-						}
-						if err := a.Write(&buf); err != nil {
-							rec.err = true
-						}
-					})
-					rec.Ret = atomic.AddInt64(&clock, 1)
-					if d.Producers[op.Prod].Stl {
-						rec.Out = decodeSTL(buf.Bytes())
-					} else {
-						rec.Out = buf.String()
-					}
-				}
-				if pn != nil {
-					rec.panicV, rec.stack, rec.site = pn.Value, pn.Stack, pn.Site
-				}
-				recs[ci] = append(recs[ci], rec)
+				recs[ci] = append(recs[ci], exec(recOp{Client: ci, Op: opName[op.Kind], plan: op})...)
 			}
 		}(ci)
 	}
@@ -462,11 +484,37 @@ func runHistory(c *run.Ctx, viaHTTP bool) run.Result {
 		return res
 	}
 
+	// ---- settle: every update has been acknowledged; one sequential read of every producer
+	// and of every parameter must now show the final state (a download that is older than a
+	// completed update is visible here even when no concurrent client happened to look)
+	var settle []recOp
+	var swg sync.WaitGroup
+	swg.Add(1)
+	go func() {
+		defer swg.Done()
+		for pi := range d.Producers {
+			settle = append(settle, exec(recOp{Client: nClients, Op: opName[opArtifact], plan: planOp{Kind: opArtifact, Prod: pi, Settle: true}})...)
+		}
+		for _, k := range targets {
+			settle = append(settle, exec(recOp{Client: nClients, Op: opName[opRead], plan: planOp{Kind: opRead, Param: k, Settle: true}})...)
+		}
+	}()
+	if dl := waitOrDeadlock(&swg); dl != nil {
+		res.Count("histories", 1)
+		res.Violate("deadlock", "graph.Instance UpdateParameter/ParameterData/Artifact", "concurrent clients",
+			fmt.Sprintf("every client has finished, but a sequential read issued afterwards never returns: %d goroutine(s) inside graph.Instance entry points, every one of them parked in a sync mutex acquisition (%s) in two goroutine dumps %v apart; the lock was left held. graph %s\n%s",
+				dl.parked, strings.Join(dl.entries, ", "), deadlockRecheck, d.sig(), dl.dump),
+			map[string]any{"graph": d, "plans": plans})
+		return res
+	}
+	res.Count("settle_reads", int64(len(settle)))
+
 	// ---- evaluate ---------------------------------------------------------------------
 	var all []recOp
 	for _, rs := range recs {
 		all = append(all, rs...)
 	}
+	all = append(all, settle...)
 	sort.Slice(all, func(i, j int) bool { return all[i].Call < all[j].Call })
 	wit := func() any { return map[string]any{"graph": d, "history": all} }
 	site := "graph.Instance UpdateParameter/ParameterData/Artifact"
@@ -485,6 +533,9 @@ func runHistory(c *run.Ctx, viaHTTP bool) run.Result {
 		if op.plan.Zip {
 			route = "GET /zip"
 			res.Count("http_zip_files_read", 1)
+		}
+		if op.plan.ZipFail || op.Out == panicOut {
+			continue // a failed build: the model decides whether a build could fail there
 		}
 		if op.Fail != "" {
 			panicked = true // the history is incomplete: not handed to the checker
@@ -569,6 +620,9 @@ func runHistory(c *run.Ctx, viaHTTP bool) run.Result {
 				}
 			} else {
 				seenUpdate = true
+				if poisonDisplay(d.Params[op.plan.Param].Kind, op.plan.Val) {
+					res.Count("poison_updates", 1)
+				}
 				if d.Params[op.plan.Param].Kind == pVec {
 					_, n := parseVec(op.plan.Val)
 					res.Count("vec_updates", 1)
@@ -582,6 +636,12 @@ func runHistory(c *run.Ctx, viaHTTP bool) run.Result {
 			}
 			if d.Producers[op.plan.Prod].Binary {
 				res.Count("binary_artifact_reads", 1)
+			}
+			if d.Producers[op.plan.Prod].SlowUS > 0 {
+				res.Count("slow_artifact_reads", 1)
+			}
+			if op.Out == panicOut || op.plan.ZipFail {
+				res.Count("failed_builds_observed", 1)
 			}
 			if d.Producers[op.plan.Prod].Stl {
 				res.Count("stl_artifact_reads", 1)
@@ -602,7 +662,7 @@ func runHistory(c *run.Ctx, viaHTTP bool) run.Result {
 	// porcupine
 	ops := make([]porcupine.Operation, 0, len(all))
 	for _, op := range all {
-		in := pIn{Kind: op.plan.Kind, Param: op.plan.Param, Prod: op.plan.Prod, Val: op.plan.Val, Bad: op.plan.Bad}
+		in := pIn{Kind: op.plan.Kind, Param: op.plan.Param, Prod: op.plan.Prod, Val: op.plan.Val, Bad: op.plan.Bad, ZipFail: op.plan.ZipFail}
 		out := pOut{Val: op.Out, Ok: op.ok, Err: op.err}
 		if op.plan.Kind == opUpdate {
 			out.Val = ""
@@ -634,7 +694,7 @@ func runHistory(c *run.Ctx, viaHTTP bool) run.Result {
 	// direct check: every artifact is the rendering of ONE assignment of the parameters
 	matchers := map[int]*regexp2{}
 	for _, op := range all {
-		if op.plan.Kind != opArtifact {
+		if op.plan.Kind != opArtifact || op.plan.ZipFail || op.Out == panicOut {
 			continue
 		}
 		if op.err {
@@ -675,6 +735,10 @@ func runHistory(c *run.Ctx, viaHTTP bool) run.Result {
 	}
 	if unknown && len(res.Violations) == 0 {
 		res.Inconclusive = "porcupine: timeout after 20s (Unknown)"
+		if dir := os.Getenv("C13_DEBUG_DIR"); dir != "" {
+			b, _ := json.Marshal(map[string]any{"phase": c.Phase, "case": c.Case, "graph": d, "init": init, "history": all})
+			os.WriteFile(fmt.Sprintf("%s/unknown-%s-%d.json", dir, c.Phase, c.Case), b, 0o644)
+		}
 	}
 
 	return res
